@@ -6,6 +6,9 @@ wt = os.environ.get("AVCHECK_WT", "/var/tmp/avcheck-wt")
 prop, name = sys.argv[1], sys.argv[2]
 trip = sys.argv[3:]
 assert len(trip) % 3 == 0 and trip
+if not os.path.exists(os.path.join(wt, ".git")):
+    subprocess.call(["git", "-C", "/repo", "worktree", "prune"])
+    subprocess.check_call(["git", "-C", "/repo", "worktree", "add", "--detach", wt, "HEAD"], stdout=subprocess.DEVNULL, stderr=subprocess.DEVNULL)
 subprocess.check_call(["git", "-C", wt, "checkout", "-q", "--", "."])
 for i in range(0, len(trip), 3):
     f, old, new = trip[i:i+3]
